@@ -34,4 +34,35 @@ CHECKS["C05"] = {
     "technique": "Lean 4 proof (Chu-Vandermonde by antidiagonal induction, convolution over compositions, Polya urn) + exhaustive differential correspondence",
 }
 
+CHECKS["C01"] = {
+    "text": "Lean theorems: detailed balance of the single-slot MH move with the haplotype-copy-count proposal ratio for every positive weight "
+            "(hence every read set, prior, inbreeding and inverse temperature), tied to the model's kernel with real-power tempering; generic "
+            "path-wise detailed balance instantiated for the recombination and dosage moves on multisets of segment pairs (return count never zero); "
+            "exchange detailed balance; the posterior weight is a function of the multiset of haplotypes; DB => stationarity. The model kernel "
+            "(options, exact R and Q) is tied to base_step / interval_step / chain_swap_acceptance by comparing the full map "
+            "{unordered result -> probability} at 1e-9; the implementation oracle extracts the whole transition matrix on enumerated instances.",
+    "design_ref": "DESIGN.md section 4, C01",
+    "note": _NOTE + "The refinement of the literal option enumerators to the abstract path sets is covered by the correspondence and the "
+            "implementation oracle, not by a theorem; the kernel is observed on .py_func with random_choice replaced; ergodicity is not claimed.",
+    "technique": "Lean 4 proof (factorial-product swap lemma, MH core, path-wise reversal bijection, rpow algebra) + kernel-level differential correspondence",
+}
+CHECKS["C02"] = {
+    "text": "Lean theorems: the Gibbs vector is the exact full conditional of likelihood x Polya-urn probability on ordered allele sequences "
+            "(hence reversible), the call-exact weight is #orderings x that ordered weight, the MH variant satisfies detailed balance with the "
+            "allele-copy-count ratio, sorting leaves the weight unchanged; model tied to gibbs_options / mh_options (jitted and py_func) at 1e-9.",
+    "design_ref": "DESIGN.md section 4, C02",
+    "note": _NOTE + "Stated for F > 0 with explicit frequencies (flat / F = 0 are covered by C05's closed forms and by the correspondence); "
+            "states of zero prior probability are excluded (unreachable).",
+    "technique": "Lean 4 proof (urn conditional from C05, MH lemma from C01) + differential correspondence + exact-conditional oracle",
+}
+CHECKS["C03"] = {
+    "text": "Lean theorems: GP sums to one; entry i is likelihood x prior of the i-th genotype of the VCF ordering, normalised; np.argmax = first maximum; "
+            "the streaming pass (strict > and running sum) and the full-array pass report the same genotype index and probability in exact arithmetic. "
+            "Model tied to posterior_mode and the array functions; SPM/AFP/ACP/AOP checked against an independent Fraction posterior.",
+    "design_ref": "DESIGN.md section 4, C03",
+    "note": _NOTE + "float32 storage on the GP/GL path is named runtime behaviour (2e-5; mode compared only when the top-two margin exceeds it); "
+            "general sum theorems for AFP/ACP and GPM<=SPM<=1 are proved on an instance only and checked on the implementation.",
+    "technique": "Lean 4 proof (first-maximum invariants of two folds, C11 enumeration order) + differential correspondence + CLI report-subset comparison",
+}
+
 NOT_APPLICABLE = {}
